@@ -3,7 +3,7 @@
 #include "vkeys.h"
 using namespace v;
 
-struct Cell { int prov; std::string key; int octlen; jwt_alg_t alg; int op; int flag = 0; int attr = 0; };   // attr 1: the JWK itself carries "alg": <the algorithm in use> (1: pinned by the key and by setkey; 2: by the key alone, setkey gets JWT_ALG_NONE)  // op 0 generate, 1 verify; flag 1: the JWK carries "alg":256, so the item is flagged with an error although its key material loaded (setkey takes such items)
+struct Cell { int prov; std::string key; int octlen; jwt_alg_t alg; int op; int flag = 0; int attr = 0; };   // attr 1: the JWK itself carries "alg": <the algorithm in use> (1: pinned by the key and by setkey; 2: by the key alone, setkey gets JWT_ALG_NONE); attr 3: members written with '=' padding  // op 0 generate, 1 verify; flag 1: the JWK carries "alg":256, so the item is flagged with an error although its key material loaded (setkey takes such items)
 static Cell CUR;
 static std::string cell_json(const Cell &c) { return "{\"prov\":" + std::to_string(c.prov) + ",\"key\":\"" + c.key + "\",\"octlen\":" + std::to_string(c.octlen) + ",\"alg\":\"" + jwt_alg_str(c.alg) + "\",\"op\":\"" + (c.op ? "verify" : "generate") + "\",\"flag\":" + std::to_string(c.flag) + ",\"attr\":" + std::to_string(c.attr) + "}"; }
 
@@ -17,7 +17,7 @@ static std::string run_cell(const Cell &c, const KeySpec &k, bool *nt) {
   bool ok_strength = strength_ok(k, c.alg);
   // "within one step of a threshold"
   if (nt) { *nt = false; if (k.kind == K_OCT) { int need = hs_min_bits(c.alg) / 8; *nt = abs(c.octlen - need) <= 1; } else if (k.kind == K_RSA) *nt = k.bits >= 2040 && k.bits <= 2056; else *nt = true; }
-  JwkOpts o; if (c.flag) o.alg_raw = "256"; else if (c.attr) o.alg = jwt_alg_str(c.alg); o.priv = true; LKey priv(jwk_json(k, o)); o.priv = false; LKey pub(jwk_json(k, o));
+  JwkOpts o; if (c.flag) o.alg_raw = "256"; else if (c.attr == 3) o.eq_pad = true; else if (c.attr) o.alg = jwt_alg_str(c.alg); o.priv = true; LKey priv(jwk_json(k, o)); o.priv = false; LKey pub(jwk_json(k, o));
   if (c.flag) {   // only the "never succeeds below the floor" direction is demanded of an item that reports an error
     if (!priv.item || !pub.item) return ""; st.cls("flagged-item-with-loaded-key"); if (ok_strength) { st.cls("flagged-item-at-or-above-floor(not-judged)"); return ""; }
   } else
@@ -104,6 +104,8 @@ int main(int argc, char **argv) {
   }
   // every same-family cell again with a key that names the algorithm itself ("alg" member)
   { size_t n0 = cells.size(); for (size_t i = 0; i < n0; i++) { const AlgInfo *ai = alg_info(cells[i].first.alg); if (!ai || ai->kind != cells[i].second.kind) continue; auto c2 = cells[i]; c2.first.attr = 1; cells.push_back(c2); c2.first.attr = 2; cells.push_back(c2); } }
+  // every cell again with the JWK members written with '=' padding (the decoded length, not the text length, is the key size)
+  { size_t n0 = cells.size(); for (size_t i = 0; i < n0; i++) { if (cells[i].first.attr) continue; auto c2 = cells[i]; c2.first.attr = 3; cells.push_back(c2); } }
   // every cell again with an item that is flagged with an error although its key material loaded
   { size_t n0 = cells.size(); for (size_t i = 0; i < n0; i++) { if (cells[i].first.attr) continue; if (cells[i].first.key == "oct" && cells[i].first.octlen % 8 && cells[i].first.octlen > 70) continue; auto c2 = cells[i]; c2.first.flag = 1; cells.push_back(c2); } }
   if (a.thorough() && a.worker == 0) {  // fresh RSA keys around the threshold
